@@ -11,7 +11,12 @@ def gen_stress(rng, prio=True):
     """shapes the anchors name: ambiguity inside inlined rules inlined into inlined rules; a long prioritised rule competing with a decomposition
     whose total lies in between; equal-priority splits of one rule (ties on the whole sort key)"""
     P = (lambda: '.%d' % rng.randint(1, 4)) if prio else (lambda: '')
-    k = rng.randrange(7)
+    k = rng.randrange(8)
+    if k == 7:
+        # keyword vs identifier: two terminals read the same text; only the terminal priorities (dynamic lexers) tell the derivations apart
+        order = rng.choice(['KW | NAME', 'NAME | KW'])
+        kp, np_ = (rng.choice(['.2', '.3', '']), rng.choice(['', '.1'])) if prio else ('', '')
+        return 'start: w%s\nw: %s\nKW%s: "a"\nNAME%s: /[ab]/\n%%ignore " "\n' % (rng.choice(['', ' w', '+']), order, kp, np_)
     if k == 5:
         lines = ['start: a B? | a', 'a%s: | b | b c' % (P() if rng.random() < 0.5 else ''), 'b%s: | c' % P(), 'c%s: | A?' % (P() if rng.random() < 0.5 else '')]
     elif k == 6:
